@@ -274,6 +274,8 @@ def sort_of(t):
         return t[1]
     if k == "tup":
         return TupSort(t[1])
+    if k == "seq":
+        return z3.SeqSort(sort_of(t[1]))
     raise NotImplementedError("no sort for type %r" % (t,))
 
 
@@ -319,6 +321,8 @@ def wrap(z, t):
     if k == "tup":
         srt = sort_of(t)
         return VTuple([wrap(srt.accessor(0, i)(z), x) for i, x in enumerate(t[1])])
+    if k == "seq":
+        return VSeq(z, t[1])
     raise NotImplementedError(t)
 
 
@@ -327,6 +331,16 @@ class VOpaqueZ(V):
 
     def __init__(self, z, t):
         self.z, self.t = z, t
+
+
+class VSeq(V):
+    """A list/tuple of unknown length: z3 sequence of elements of type descriptor et."""
+
+    def __init__(self, z, et):
+        self.z, self.et = z, et
+
+    def __repr__(self):
+        return "VSeq(%s)" % self.z
 
 
 class VEmptyDict(V):
@@ -363,6 +377,15 @@ def unwrap(v, t):
     if k == "map":
         c, _, _ = map_parts(sort_of(t))
         return c(v.dom, v.val)
+    if k == "seq":
+        if isinstance(v, VSeq):
+            return v.z
+        if isinstance(v, VTuple):
+            parts = [z3.Unit(unwrap(x, t[1])) for x in v.items]
+            if not parts:
+                return z3.Empty(sort_of(t))
+            return parts[0] if len(parts) == 1 else z3.Concat(*parts)
+        raise TypeError("sequence from %r" % (v,))
     if k == "strseq" and isinstance(v, VTuple):
         z = z3.Empty(StrSeq)
         for x in v.items:
